@@ -705,11 +705,13 @@ class Interp:
                 if bid in prog.bodies:
                     pid = bid
             if pid is not None:
-                res = self.exec_body(prog.bodies[pid], ctx.gargs, [], st, ctx, ("promoted", o["promoted"]))
+                res = self.exec_body(prog.bodies[pid], ctx.gargs, [], st, ctx, ("promoted", o["promoted"]), keep_frame=True)
                 if len(res) == 1:
                     st2, v = res[0]
-                    # promoted constants have no side effects; keep st (cells written are frame-local)
-                    st.cells.update({k: c for k, c in st2.cells.items() if isinstance(k, tuple) and k and k[0] == "h"})
+                    # promoted constants have no side effects; their frame holds the constant's storage
+                    for k, c in st2.cells.items():
+                        if k not in st.cells:
+                            st.cells[k] = c
                     st.bounds.update(st2.bounds)
                     return v
         it = self.int_ty(ty)
@@ -1374,7 +1376,7 @@ class Interp:
             a0 = cv
         return self.exec_body(body, cty[3], [a0] + list(args), st, ctx, tag)
 
-    def exec_body(self, body, gargs, args, st, caller, callsite):
+    def exec_body(self, body, gargs, args, st, caller, callsite, keep_frame=False):
         prog = self.prog
         if caller is not None:
             depth = caller.depth + 1
@@ -1402,12 +1404,14 @@ class Interp:
                 rv = UNIT
             if isinstance(rv, TopV) and rv.ty is None:
                 rv = TopV(prog.ty(body["locals"][0]["ty"], subst))
-            for key in [k for k in s2.cells if k[0] == fid]:
-                del s2.cells[key]
             outs.append((s2, rv))
         hook = self.return_hooks.get(body["id"])
         if hook is not None and self.recording:
             hook(self, ctx, outs)
+        if not keep_frame:
+            for s2, rv in outs:
+                for key in [k for k in s2.cells if k[0] == fid]:
+                    del s2.cells[key]
         if len(outs) > self.K_ret:
             outs = self.join_returns(outs, fid)
         return outs
